@@ -33,11 +33,17 @@ CFG = dict(
              reason="in_size is modified only by the main thread (comment at the member)"),
         dict(fn="stream_encode_mt", fields={"progress_out"}, kind="after-outq-empty",
              reason="all Blocks finished: the loop is left only when the output queue is empty"),
-        dict(fn="stream_encoder_mt_init", fields={"thread_error", "threads_free", "progress_in", "progress_out"},
+        dict(fn="stream_encoder_mt_init", fields={"thread_error", "threads_free", "progress_in", "progress_out", "next"},
              kind="after-stop-or-end",
              reason="workers were stopped (threads_stop(wait)) or ended, or the coder is freshly allocated"),
     ],
     requires={"lzma_outq_read": "M", "lzma_outq_is_readable": "M"},
+    stop_ack=dict(worker_fn="worker_start", idle="THR_IDLE", stop="THR_STOP", exit="THR_EXIT",
+                  worker_fns=("worker_start", "worker_encode", "worker_error")),
+    init_quiesce=dict(init_fn="stream_encoder_mt_init", worker_fns=("worker_start", "worker_encode", "worker_error"),
+                      calls=("threads_stop", "threads_end"),
+                      **{"except": {"mutex": "the mutex itself (initialised once, when the coder is allocated)",
+                                    "cond": "the condition variable itself (initialised once)"}}),
     order_ok={("M", "T")},
     waited={
         (THR, "state"): "T", (THR, "in_size"): "T",
@@ -176,3 +182,12 @@ def run(ck):
     ck.rule("C08-FLOW", "must-pass rules of the main loop")
     evaluate(ck, prog, "C08-FLOW", TABLE, floor=4)
     check_misc(ck, prog)
+    mtcommon.check_stop_ack(ck, prog, CFG, "C08-STOPACK")
+    mtcommon.check_init_quiesce(ck, prog, CFG, "C08-QUIESCE")
+    ck.rule("C08-INITCONS", "members that stream_encoder_mt_init (re)initialises on some paths are initialised on "
+                            "every path that returns LZMA_OK")
+    from . import reinit
+    reinit.INIT_EXCEPT[("stream_encoder_mt_init", "threads_initialized")] = \
+        "number of live worker threads: they are kept (stopped) when the thread count is unchanged"
+    reinit.check_init_consistency(ck, prog, "C08-INITCONS", files={FILE})
+    ck.floor("C08-INITCONS", 6)
